@@ -428,16 +428,21 @@ def gf_cell(chk, drv, df, cfg, rec):
         q0 = np.asarray(om.predict(df.assign(A=0)))
         sid = cl['sid'] if cl else np.zeros(len(df), dtype=int)
         chosen = '|'.join(';'.join(enc_list(np.flatnonzero(t & mk).tolist(), str) for mk in masks) for t in treated)
+        # the op runs the definition regenerated from the text of fit_stochastic (Gen.gf_stoch_fit) on the captured
+        # draws: rows carry the observed flag, the options are the call's own (`mm` = hand model, for cross-check)
         rows = enc_rows_f(df.assign(Y=df['Y'].fillna(0.0)), sid, wcol)
-        if not pm:
-            rows['w'] = fxs(df['Y'].notna().values.astype(float) * (df[wcol].values if wcol else 1.0))
-        rep, _ = drv.ask('gfmc', c='f', tgt=tgt, q1=fxs(q1), q0=fxs(q0), chosen=chosen, **rows)
+        rows['obs'] = bits(df['Y'].notna().values)
+        plan = {} if conds is None else {'ps': fxs(p), 'masks': ';'.join(bits(mk) for mk in masks)}
+        rep, _ = drv.ask('gfstoch', c='f', tgt=tgt, hascond=int(conds is not None), hasw=int(bool(wcol)), pm=int(bool(pm)),
+                         q1=fxs(q1), q0=fxs(q0), chosen=chosen, **rows, **plan)
         chk.k(rep['status'] == 'ok' and close(unfx(rep['m']), base, **TOLD),
               'stochastic g-formula = Lean model on the reference predictions and the captured draws',
               dict(case, model=rep.get('m')))
+        chk.k(rep['status'] == 'ok' and close(unfx(rep['mm']), unfx(rep['m']), **TOLD),
+              'stochastic g-formula: generated definition = hand model on the same draws', dict(case, model=rep.get('mm')))
         ok = True
         for mk, pk in zip(masks, plist):
-            r2, _ = drv.ask('plansize', c='f', p=fx(pk), n=int(mk.sum()))
+            r2, _ = drv.ask('plansize', c='f', p=fx(pk), n=int(mk.sum()), cond=int(conds is not None))
             ok = ok and r2['status'] == 'ok' and int(r2['size']) == int((treated[0] & mk).sum())
         chk.k(ok, 'treated counts = Lean planSize (floor of the floating-point product)', case)
 
